@@ -382,6 +382,55 @@ def preorder(D, ids, out=None):
     return out
 
 
+def cross_version(ctx):
+    """one process, several table groups: the same descriptor list built under two versions that define it differently
+    (sequence membership / element attributes) gives each version's own template, in either order"""
+    from pybufrkit.tables import TableGroupCacheManager
+    from pybufrkit.descriptors import flat_member_ids
+    rng = ctx.rng
+    versions = R.wmo_versions()
+    pairs = []
+    for a, b in list(zip(versions, versions[1:])) + [(versions[0], versions[-1])]:
+        Ba, Da = R.load_tables(0, 0, 0, a, 0)
+        Bb, Db = R.load_tables(0, 0, 0, b, 0)
+        for sid in sorted(set(Da) & set(Db)):
+            try:
+                if expand(Da, Da[sid]) != expand(Db, Db[sid]):
+                    pairs.append(('seq', sid, a, b))
+            except (KeyError, RecursionError):
+                pass
+        for e in sorted(set(Ba) & set(Bb)):
+            if Ba[e][2:5] != Bb[e][2:5]:
+                pairs.append(('elem', e, a, b))
+    rng.shuffle(pairs)
+    for kind, d, a, b in pairs[:(12 if ctx.quick else 150)]:
+        order = [a, b, a] if rng.random() < 0.5 else [b, a, b]
+        for v in order:
+            B, D = R.load_tables(0, 0, 0, v, 0)
+            tg = TableGroupCacheManager.get_table_group(master_table_version=v)
+            ids = [d] if kind == 'seq' else [1001, d, d]
+            ctx.count('cross_version_templates')
+            ctx.evaluated(('cross', kind, d, tuple(order), v), True)
+            spec = dict(part='cross-version', kind=kind, id=d, order=order, version=v)
+            try:
+                t = tg.template_from_ids(*ids)
+                got = flat_member_ids(t)
+            except Exception as e:
+                ctx.violate('cross-version/exception:%s' % type(e).__name__, 'template_from_ids(%r) under version %d raised %r' % (ids, v, e), spec, exc=e)
+                break
+            want = expand(D, ids)
+            if got != want:
+                ctx.violate('cross-version/expansion-differs/%s' % kind, 'list %r under version %d (after %r) flattens to %d ids, the table '
+                            'file of that version gives %d' % (ids, v, order, len(got), len(want)), spec)
+                break
+            if kind == 'elem':
+                el = t.members[1]
+                if (el.scale, el.refval, el.nbits) != B[d][2:5]:
+                    ctx.violate('cross-version/element-attributes', 'element %06d built under version %d (after %r) has %r, Table B of that '
+                                'version has %r' % (d, v, order, (el.scale, el.refval, el.nbits), B[d][2:5]), spec)
+                    break
+
+
 def cli_tables(ctx):
     """`lookup` prints an element's Table B attributes, `info -t` the template of a file: both against the table files"""
     from mon.cli import run_cli
@@ -480,6 +529,7 @@ def run(ctx):
     random_lists(ctx, tg, B, D)
     undefined_cases(ctx, dec, B, D)
     version_selection(ctx, dec)
+    cross_version(ctx)
     cli_tables(ctx)
 
 
